@@ -148,13 +148,25 @@ func (s *recSet) Add(rec *hostsfile.Record) {
 type recHandleSet struct{ recSet }
 
 func (s *recHandleSet) HandleInvalid(srcName string, data []byte, err error) {
+	// The line number and the cause are what the property fixes; how a
+	// LineError words itself is not compared.
 	e := event{Kind: "invalid", Source: srcName, Data: string(data), Err: err.Error(), Line: -1}
 	var le *hostsfile.LineError
 	if errors.As(err, &le) {
 		e.Line = le.Line
+		e.Err = causeText(le)
 	}
 
 	s.events = append(s.events, e)
+}
+
+// causeText is the text of what a LineError wraps.
+func causeText(le *hostsfile.LineError) string {
+	if cause := errors.Unwrap(le); cause != nil {
+		return cause.Error()
+	}
+
+	return "<no cause>"
 }
 
 // ---- reference ----
@@ -184,9 +196,8 @@ func expected(data, srcName string) (evs []event, lineErrs []string) {
 		rec := &hostsfile.Record{Source: srcName}
 		err := rec.UnmarshalText([]byte(line))
 		if err != nil {
-			msg := fmt.Sprintf("line %d: %s", i+1, err)
-			evs = append(evs, event{Kind: "invalid", Source: srcName, Data: line, Err: msg, Line: i + 1})
-			lineErrs = append(lineErrs, msg)
+			evs = append(evs, event{Kind: "invalid", Source: srcName, Data: line, Err: err.Error(), Line: i + 1})
+			lineErrs = append(lineErrs, fmt.Sprintf("line %d: %s", i+1, err))
 		} else {
 			evs = append(evs, event{Kind: "add", Addr: rec.Addr.String(), Names: rec.Names, Source: srcName})
 		}
@@ -315,17 +326,17 @@ func runParse(pc parseCase, ch *explore.Chooser) (viol, what, trace string, nonD
 			break
 		}
 
-		wantMsg := "parsing: " + strings.Join(wantErrs, "\n")
-		if err == nil || err.Error() != wantMsg {
-			return "joined-error", fmt.Sprintf("returned error %q, want %q", fmt.Sprint(err), wantMsg), trace, nonDefault
+		if err == nil {
+			return "joined-error", fmt.Sprintf("returned no error, want one that reports [%s]", strings.Join(wantErrs, "; ")), trace, nonDefault
 		}
 
-		// Every invalid line exactly once, as *LineError with its number.
-		var lines []int
+		// Every invalid line exactly once, as *LineError with its number and
+		// its cause, in source order.
+		var lines []string
 		var walk func(e error)
 		walk = func(e error) {
 			if le, ok := e.(*hostsfile.LineError); ok {
-				lines = append(lines, le.Line)
+				lines = append(lines, fmt.Sprintf("line %d: %s", le.Line, causeText(le)))
 
 				return
 			}
@@ -342,15 +353,9 @@ func runParse(pc parseCase, ch *explore.Chooser) (viol, what, trace string, nonD
 			}
 		}
 		walk(err)
-		var wantLines []int
-		for _, e := range wantEvs {
-			if e.Kind == "invalid" {
-				wantLines = append(wantLines, e.Line)
-			}
-		}
-
-		if fmt.Sprint(lines) != fmt.Sprint(wantLines) {
-			return "line-numbers", fmt.Sprintf("LineErrors for lines %v, want %v", lines, wantLines), trace, nonDefault
+		if strings.Join(lines, "\n") != strings.Join(wantErrs, "\n") {
+			return "joined-error", fmt.Sprintf("returned error %q reports [%s], want [%s]", fmt.Sprint(err), strings.Join(lines, "; "),
+				strings.Join(wantErrs, "; ")), trace, nonDefault
 		}
 	default:
 		if err != nil {
